@@ -484,6 +484,10 @@ def constructor_snapshots(project: Project, classes=None) -> List[dict]:
         init = c.methods.get("__init__")
         if init is None or not isinstance(init.node, ast.FunctionDef) or not init.params:
             continue
+        if c.name.startswith("_"):
+            # a private helper object lives inside one call of the function that builds it: nobody assigns its attributes
+            # between construction and use (L01 / L06: `_ThresholdGraph(cost)` inside bottleneck)
+            continue
         me = init.params[0]
         params = set(init.params[1:])
         props = {m.name for m in c.methods.values() if m.kind in ("property", "setter")}
